@@ -106,7 +106,10 @@ func valName(v ssa.Value) string {
 			}
 		}
 	case *ssa.Const:
-		return x.String()
+		if x.Value != nil {
+			return x.Value.String()
+		}
+		return "nil"
 	case *ssa.Global:
 		return x.Name()
 	case *ssa.Call:
